@@ -238,7 +238,9 @@ type Args struct {
 func (a *Args) String() string {
 	var v []string
 	if len(a.Processed) != 0 {
-		v = a.Processed
+		// Cap the slice so that appending "..." below copies instead of writing
+		// into the shared backing array.
+		v = a.Processed[:len(a.Processed):len(a.Processed)]
 	} else {
 		v = make([]string, 0, len(a.Values))
 		for _, item := range a.Values {
